@@ -77,13 +77,13 @@ func (u *fTrack) GetPacket(s uint16, b []byte, n bool) uint16 { return u.cache.G
 // ------------------------------------------------------------------ model publisher
 
 type srcFrame struct {
-	idx   int
-	ts    uint32
-	key   bool
-	data  []byte   // what a depacketiser must reassemble
-	pkts  [][]byte // marshalled RTP packets
-	first int      // index of its first packet in the track's packet list
-	newDims bool   // a keyframe whose dimensions differ from the previous keyframe's
+	idx     int
+	ts      uint32
+	key     bool
+	data    []byte   // what a depacketiser must reassemble
+	pkts    [][]byte // marshalled RTP packets
+	first   int      // index of its first packet in the track's packet list
+	newDims bool     // a keyframe whose dimensions differ from the previous keyframe's
 }
 
 type srcTrack struct {
